@@ -27,6 +27,30 @@ func pick(rt *rapid.T, label string, names []string, weights []int) string {
 	return names[len(names)-1]
 }
 
+// pickU is pick with an unbiased draw (rapid's integer generators favour small values, i.e. the first names;
+// ten fair bits modulo the total are uniform enough).
+func pickU(rt *rapid.T, label string, names []string, weights []int) string {
+	tot := 0
+	for _, w := range weights {
+		tot += w
+	}
+	x := 0
+	for _, b := range rapid.SliceOfN(rapid.Bool(), 10, 10).Draw(rt, label) {
+		x <<= 1
+		if b {
+			x |= 1
+		}
+	}
+	x %= tot
+	for i, w := range weights {
+		if x < w {
+			return names[i]
+		}
+		x -= w
+	}
+	return names[len(names)-1]
+}
+
 func u16(v uint16) []byte { b := make([]byte, 2); binary.BigEndian.PutUint16(b, v); return b }
 func u32(v uint32) []byte { b := make([]byte, 4); binary.BigEndian.PutUint32(b, v); return b }
 func u64(v uint64) []byte { b := make([]byte, 8); binary.BigEndian.PutUint64(b, v); return b }
@@ -261,7 +285,9 @@ func genRCR(rt *rapid.T, c config, shape string) event {
 
 func genReplyEvent(rt *rapid.T, c config, k kind) event {
 	e := event{K: k}
-	e.IDMode = rapid.SampledFrom([]int{idMatch, idMatch, idMatch, idStale, idRaw}).Draw(rt, "idMode")
+	// identifier: our latest Configure-Request 40 %, another packet we sent (any code) 40 % (of which 10 points are
+	// earlier Configure-Requests), fresh 20 %
+	e.IDMode = map[string]int{"match": idMatch, "other": idOther, "stale": idStale, "raw": idRaw}[pickU(rt, "idMode", []string{"match", "other", "stale", "raw"}, []int{40, 30, 10, 20})]
 	e.ID = rapid.Byte().Draw(rt, "id")
 	switch k {
 	case kRCA:
@@ -300,10 +326,18 @@ func genReplyEvent(rt *rapid.T, c config, k kind) event {
 	return e
 }
 
-var evNames = []string{"Up", "Down", "Open", "Close", "TO", "Half", "RCR", "RCA", "RCN", "RCJ", "RTR", "RTA", "XJ", "PJ", "Echo", "Other", "Late", "Assign"}
+var evNames = []string{"Up", "Down", "Open", "Close", "TO", "Half", "RCR", "RCA", "RCN", "RCJ", "RTR", "RTA", "XJ", "PJ", "Echo", "Other", "Late", "Assign", "SendEcho", "SendPJ"}
+
+// idFrom draws the source of the identifier of an incoming Terminate-Ack / Code-Reject / Echo-Reply: the matching
+// request of ours 40 %, another packet we sent 40 %, fresh 20 %.
+func idFrom(rt *rapid.T) int {
+	return map[string]int{"request": fromRequest, "other": fromOther, "raw": fromRaw}[pickU(rt, "idFrom", []string{"request", "other", "raw"}, []int{40, 40, 20})]
+}
 
 func genEvent(rt *rapid.T, c config, allowLate bool) event {
-	w := []int{5, 3, 5, 4, 11, 3, 24, 14, 5, 4, 6, 4, 2, 2, 3, 2, 5, 0}
+	// "Other" (weight 6 for LCP) is mostly an unknown code, which LCP answers with a Code-Reject carrying an
+	// identifier of its own; SendEcho / SendPJ make LCP originate Echo-Request / Protocol-Reject
+	w := []int{5, 3, 5, 4, 11, 3, 24, 16, 5, 4, 6, 4, 2, 2, 3, 7, 5, 0, 8, 4}
 	if !allowLate {
 		w[16] = 0
 	}
@@ -311,8 +345,9 @@ func genEvent(rt *rapid.T, c config, allowLate bool) event {
 		w[17] = 2
 	}
 	if c.P != pLCP {
-		// the NCP automata ignore codes 7.. ; keep a little of it
-		w[12], w[13], w[14], w[15] = 1, 1, 1, 1
+		// the NCP automata ignore codes 7.. and originate nothing but Configure- and Terminate-Requests; keep a little of it
+		w[12], w[13], w[14], w[15] = 1, 1, 1, 2
+		w[18], w[19] = 0, 0
 	}
 	switch pick(rt, "event", evNames, w) {
 	case "Up":
@@ -338,7 +373,7 @@ func genEvent(rt *rapid.T, c config, allowLate bool) event {
 	case "RTR":
 		return event{K: kRTR, ID: rapid.Byte().Draw(rt, "id"), Data: rapid.SliceOfN(rapid.Byte(), 0, 6).Draw(rt, "data")}
 	case "RTA":
-		return event{K: kRTA, ID: rapid.Byte().Draw(rt, "id")}
+		return event{K: kRTA, ID: rapid.Byte().Draw(rt, "id"), IDFrom: idFrom(rt)}
 	case "XJ":
 		// Code-Reject carries a copy of the rejected packet: first byte is the rejected code
 		code := rapid.SampledFrom([]byte{1, 1, 2, 3, 4, 5, 9, 12, 0}).Draw(rt, "rejectedCode")
@@ -346,7 +381,7 @@ func genEvent(rt *rapid.T, c config, allowLate bool) event {
 		if rapid.IntRange(0, 7).Draw(rt, "emptyXJ") == 0 {
 			d = nil
 		}
-		return event{K: kXJ, ID: rapid.Byte().Draw(rt, "id"), Data: d}
+		return event{K: kXJ, ID: rapid.Byte().Draw(rt, "id"), IDFrom: idFrom(rt), Data: d}
 	case "PJ":
 		pr := rapid.SampledFrom([]uint16{0xc021, 0x8021, 0x8057, 0x0021, 0xc023}).Draw(rt, "rejectedProto")
 		d := append(u16(pr), rapid.SliceOfN(rapid.Byte(), 0, 4).Draw(rt, "rest")...)
@@ -361,8 +396,20 @@ func genEvent(rt *rapid.T, c config, allowLate bool) event {
 		}
 		return event{K: kEcho, ID: rapid.Byte().Draw(rt, "id"), Data: rapid.SliceOfN(rapid.Byte(), n, n).Draw(rt, "data")}
 	case "Other":
-		return event{K: kOther, Code: rapid.SampledFrom([]byte{10, 11, 12, 0, 200}).Draw(rt, "code"), ID: rapid.Byte().Draw(rt, "id"),
+		// 10 Echo-Reply, 11 Discard-Request; 12 (RFC 1570 Identification), 13 (Time-Remaining), 14 (RFC 1962 Reset-Request),
+		// 0 and 200 are unknown to the automata: LCP answers them with a Code-Reject
+		e := event{K: kOther, Code: rapid.SampledFrom([]byte{10, 11, 12, 12, 13, 14, 0, 200}).Draw(rt, "code"), ID: rapid.Byte().Draw(rt, "id"),
 			Data: rapid.SliceOfN(rapid.Byte(), 0, 6).Draw(rt, "data")}
+		if e.Code == 10 {
+			e.IDFrom = idFrom(rt)
+		}
+		return e
+	case "SendEcho":
+		return event{K: kSendEcho}
+	case "SendPJ":
+		// an early packet of a protocol the session layer does not run (CCP, ECP, IPX, MPLS-CP, compressed datagram)
+		return event{K: kSendPJ, Proto: rapid.SampledFrom([]uint16{0x80fd, 0x8053, 0x802b, 0x8281, 0x00fd}).Draw(rt, "proto"),
+			Data: rapid.SliceOfN(rapid.Byte(), 0, 8).Draw(rt, "data")}
 	case "Late":
 		in := genEvent(rt, c, false)
 		for in.K == kTO || in.K == kHalf {
@@ -381,7 +428,11 @@ func genEvent(rt *rapid.T, c config, allowLate bool) event {
 //	close  : full handshake to Opened, optional extras, Close, then silence
 func genHistory(rt *rapid.T, p proto) (config, []event, string) {
 	c := genConfig(rt, p)
-	shape := pick(rt, "caseShape", []string{"random", "silent", "close"}, []int{70, 15, 15})
+	wShape := []int{60, 12, 12, 16}
+	if p == pLCP {
+		wShape = []int{45, 10, 10, 35} // LCP is the automaton that originates Code-Reject / Protocol-Reject / Echo-Request
+	}
+	shape := pickU(rt, "caseShape", []string{"random", "silent", "close", "xid"}, wShape)
 	var evs []event
 	start := func() {
 		if rapid.Bool().Draw(rt, "openFirst") {
@@ -398,8 +449,60 @@ func genHistory(rt *rapid.T, p proto) (config, []event, string) {
 		} else {
 			evs = append(evs, rca, rcr)
 		}
+		// once the link is open the keep-alive originates Echo-Requests (LCP only)
+		if p == pLCP && pickU(rt, "keepalive", []string{"no", "yes"}, []int{60, 40}) == "yes" {
+			evs = append(evs, event{K: kSendEcho})
+		}
 	}
 	switch shape {
+	case "xid":
+		// cross-code identifier confusion: the automaton is made to originate a packet that is NOT a Configure-Request
+		// (Code-Reject for an unknown code, Protocol-Reject, Echo-Request; for the NCP automata, which originate nothing
+		// else, a reply or a Terminate-Request), then the peer answers with THAT packet's identifier
+		start()
+		pre := pickU(rt, "xidPre", []string{"none", "rcr", "handshake"}, []int{40, 30, 30})
+		switch pre {
+		case "rcr":
+			evs = append(evs, genRCR(rt, c, "ack"))
+		case "handshake":
+			handshake()
+		}
+		if p == pLCP {
+			wTrig := []int{55, 45, 0}
+			if pre == "handshake" {
+				wTrig = []int{20, 20, 60} // an Echo-Request is only originated in Opened
+			}
+			switch pickU(rt, "xidTrigger", []string{"unknown", "sendpj", "sendecho"}, wTrig) {
+			case "unknown":
+				evs = append(evs, event{K: kOther, Code: rapid.SampledFrom([]byte{12, 13, 14, 0, 200}).Draw(rt, "code"), ID: rapid.Byte().Draw(rt, "id"),
+					Data: rapid.SliceOfN(rapid.Byte(), 0, 6).Draw(rt, "data")})
+			case "sendpj":
+				evs = append(evs, event{K: kSendPJ, Proto: rapid.SampledFrom([]uint16{0x80fd, 0x8053, 0x802b}).Draw(rt, "proto"), Data: rapid.SliceOfN(rapid.Byte(), 0, 8).Draw(rt, "data")})
+			default:
+				evs = append(evs, event{K: kSendEcho})
+			}
+		} else {
+			switch pickU(rt, "xidTrigger", []string{"rcr", "rtr", "close-open"}, []int{50, 25, 25}) {
+			case "rcr":
+				evs = append(evs, genRCR(rt, c, ""))
+			case "rtr":
+				evs = append(evs, event{K: kRTR, ID: rapid.Byte().Draw(rt, "id")}, event{K: kDown}, event{K: kUp})
+			default:
+				evs = append(evs, event{K: kClose}, event{K: kOpen}, event{K: kDown}, event{K: kUp})
+			}
+		}
+		if rapid.IntRange(0, 4).Draw(rt, "xidHalf") == 0 {
+			evs = append(evs, event{K: kHalf})
+		}
+		rp := genReplyEvent(rt, c, map[string]kind{"RCA": kRCA, "RCN": kRCN, "RCJ": kRCJ}[pickU(rt, "xidReply", []string{"RCA", "RCN", "RCJ"}, []int{70, 15, 15})])
+		rp.IDMode, rp.ID = idOther, byte(rapid.SampledFrom([]int{0, 0, 0, 1}).Draw(rt, "xidWhich"))
+		evs = append(evs, rp)
+		if rapid.IntRange(0, 9).Draw(rt, "xidRCR") < 7 {
+			evs = append(evs, genRCR(rt, c, "ack"))
+		}
+		for i, n := 0, rapid.IntRange(0, 3).Draw(rt, "extras"); i < n; i++ {
+			evs = append(evs, genEvent(rt, c, true))
+		}
 	case "silent":
 		start()
 		if rapid.IntRange(0, 3).Draw(rt, "noise") == 0 {
